@@ -134,6 +134,23 @@ def plan(ctx):
             for closer in (1, 2):
                 scs.append(gen_scenario(ctx.rng, force="hc" if kind == "half" and ctx.rng.random() < 0.5 else None,
                                         kind=kind, closer=closer, sizes=sizes))
+        # boundary sizes of the transport's send loop: writes that are exact multiples of its 128 KiB send slice
+        # (and one byte around it), a short delay, a small trailing write, orderly close; default socket buffers so that
+        # whole slices are accepted
+        for closer in (1, 2):
+            k = ctx.rng.choice([1, 2, 2, 3, 8])
+            delta = ctx.rng.choice([0, 0, 0, 0, 1, -1])
+            # delay 0 = the next reactor iteration: the trailing write lands between two send slices
+            ops = [["w", k * 131072 + delta], ["d", ctx.rng.choice([0, 0, 0, 1, 2])], ["w", ctx.rng.randint(1, 2000)]]
+            if ctx.rng.random() < 0.5:
+                ops += [["d", 1], ["ws", [3, 0, 5]]]
+            tot = sum(o[1] if o[0] == "w" else sum(o[1]) if o[0] == "ws" else 0 for o in ops)
+            kind = ctx.rng.choice(["lose", "half"])
+            sc = dict(closer=closer, kind=kind, hc=[True, True] if kind == "half" else [ctx.rng.random() < 0.5, ctx.rng.random() < 0.5],
+                      sndbuf=0, rcvbuf=0, ops=[[], []], rdpause=[[], []], abort_delay_ms=0, totals=[0, 0])
+            sc["ops"][closer - 1] = ops
+            sc["totals"][closer - 1] = tot
+            scs.append(sc)
         chunk = 25
         for i in range(0, len(scs), chunk):
             jobs.append(dict(reactor=reactor, scenarios=scs[i:i + chunk], timeout_ms=TIMEOUT_MS, idle_ms=IDLE_MS))
@@ -308,7 +325,8 @@ def run(ctx):
     ctx.extra["timed_out_scenarios"] = sum(1 for t in traces if t["timed_out"])
     ctx.exhaustive = False
     ctx.log("recorded %d real connections, %d bytes written, %d deliveries" % (len(traces), ctx.extra["bytes_written"], ctx.extra["deliveries"]))
-    rej = ctx.validate("TcpStreamTrace", slim, shard_size=max(1, (len(slim) + 3) // 4))
+    nsh = ctx.pick(2, 8)
+    rej = ctx.validate("TcpStreamTrace", slim, shard_size=max(1, (len(slim) + nsh - 1) // nsh))
     report(ctx, traces, rej)
     bad = {x.idx for x in rej}
     good = [t for k, t in enumerate(slim) if k not in bad and nontrivial(t)]
